@@ -164,6 +164,9 @@ func (w *World) importsOf(pkgPath string) map[string]string {
 			out[name] = path
 		}
 	}
+	for n, p := range extraImports[pkgPath] {
+		out[n] = p
+	}
 	return out
 }
 
